@@ -109,14 +109,56 @@ func cleanupReplayBinary() {
 	}
 }
 
+// materializeSkeletons copies the skeleton module to a scratch directory and substitutes the
+// notation slots by the choices of the model (slot.<name> inputs; 0 when absent).
+func materializeSkeletons(model map[string]interface{}) (string, error) {
+	root := filepath.Join(verifDir, "skeletons")
+	dst, err := os.MkdirTemp("", "symgo-sk")
+	if err != nil {
+		return "", err
+	}
+	err = filepath.Walk(root, func(p string, info os.FileInfo, err error) error {
+		if err != nil {
+			return err
+		}
+		rel, _ := filepath.Rel(root, p)
+		if info.IsDir() {
+			return os.MkdirAll(filepath.Join(dst, rel), 0755)
+		}
+		b, err := os.ReadFile(p)
+		if err != nil {
+			return err
+		}
+		if strings.HasSuffix(p, ".go") {
+			slots := sym.LoadSlots(filepath.Dir(p))
+			if len(slots) > 0 {
+				b = sym.SubstituteSlotsForModel(b, slots, model)
+			}
+		}
+		return os.WriteFile(filepath.Join(dst, rel), b, 0644)
+	})
+	return dst, err
+}
+
 func runNative(harness, modelPath string) string {
 	bin, errs := replayBinary()
 	if bin == "" {
 		return errs
 	}
+	var m struct {
+		Inputs map[string]interface{} `json:"inputs"`
+	}
+	if b, err := os.ReadFile(modelPath); err == nil {
+		json.Unmarshal(b, &m)
+	}
+	skDir, err := materializeSkeletons(m.Inputs)
+	if err != nil {
+		return "materialize skeletons: " + err.Error()
+	}
+	defer os.RemoveAll(skDir)
 	cmd := exec.Command(bin, "-test.run", "^TestVerifReplay$", "-test.v")
-	cmd.Dir = filepath.Dir(bin)
-	cmd.Env = append(os.Environ(), "VERIF_REPLAY="+modelPath, "VERIF_HARNESS="+harness)
+	cmd.Dir = skDir // inside the skeleton module, so that convergen's own go list resolves it
+	cmd.Env = append(goEnv(), "VERIF_REPLAY="+modelPath, "VERIF_HARNESS="+harness, "VERIF_SK_DIR="+skDir)
 	out, _ := cmd.CombinedOutput()
 	return string(out)
 }
